@@ -423,3 +423,205 @@ Proof.
   - destruct HP as (s' & p & EP & ER & I1 & S1 & A1). rewrite EP in EQ. cbn [r_msg] in EQ.
     exists (g_of s'), (buf s'), p. rewrite (s_of_g_of s'). repeat split; auto.
 Qed.
+
+(* ================= whole programs on the generated functions ================= *)
+(* The driver of MrbModel.run, with the three C functions replaced by the generated ones.  The
+   message copy in and out of the region handed out (memcpy by the caller) stays MrbModel.fill /
+   MrbModel.read_msg: checked byte accesses on the same array. *)
+Definition lift {A : Type} (r : MrbModel.res A) : GenLib.res A :=
+  match r with MrbModel.Ok a => GenLib.Ok a | MrbModel.Fault f => GenLib.Fault (flt f) end.
+
+Definition gen_deliver (r : GenLib.res (ptr * jls_mrb_s * N * list N)) : GenLib.res (jls_mrb_s * list N * out) :=
+  GenLib.bind r (fun '(p, g1, z, m1) =>
+    match p with
+    | Null => GenLib.Ok (g1, m1, RMsg None)
+    | Ptr q => GenLib.bind (lift (read_msg (s_of g1 m1) q z)) (fun d => GenLib.Ok (g1, m1, RMsg (Some (q, d))))
+    end).
+
+Definition gen_step (g : jls_mrb_s) (m : list N) (o : op) : GenLib.res (jls_mrb_s * list N * out) :=
+  match o with
+  | OAlloc d =>
+    GenLib.bind (jls_mrb_alloc m g (MrbModel.len d)) (fun '(p, g1, m1) =>
+      match p with
+      | Null => GenLib.Ok (g1, m1, RAlloc None)
+      | Ptr q => GenLib.bind (lift (fill (s_of g1 m1) q d)) (fun s2 => GenLib.Ok (g1, buf s2, RAlloc (Some q)))
+      end)
+  | OPeek => gen_deliver (jls_mrb_peek m g 0)
+  | OPop => gen_deliver (jls_mrb_pop m g 0)
+  end.
+
+Fixpoint gen_run (g : jls_mrb_s) (m : list N) (ops : list op) : GenLib.res (jls_mrb_s * list N * list out) :=
+  match ops with
+  | [] => GenLib.Ok (g, m, [])
+  | o :: r => GenLib.bind (gen_step g m o) (fun '(g1, m1, x) =>
+              GenLib.bind (gen_run g1 m1 r) (fun '(g2, m2, xs) => GenLib.Ok (g2, m2, x :: xs)))
+  end.
+
+Definition op_bytes (o : op) : Prop := match o with OAlloc d => bytes d | _ => True end.
+
+(* bytes stay bytes *)
+Lemma upd_bytes : forall m i v, v < 256 -> bytes m -> bytes (MrbModel.upd m i v).
+Proof.
+  induction m as [|x r IH]; intros i v Hv Hb; [exact Hb|]. inversion Hb; subst.
+  destruct i; cbn [MrbModel.upd]; constructor; auto. apply IH; auto.
+Qed.
+Lemma set_bytes : forall m B i v m', MrbModel.set m B i v = MrbModel.Ok m' -> v < 256 -> bytes m -> bytes m'.
+Proof. intros m B i v m' H Hv Hb. unfold MrbModel.set in H. destruct (i <? B); inversion H. now apply upd_bytes. Qed.
+Lemma land255_lt : forall x, N.land x 255 < 256.
+Proof. intros x. rewrite land255. apply N.mod_lt. discriminate. Qed.
+Lemma add_sz_bytes : forall m B o v m', MrbModel.add_sz m B o v = MrbModel.Ok m' -> bytes m -> bytes m'.
+Proof.
+  intros m B o v m' H Hb. unfold MrbModel.add_sz in H.
+  destruct (MrbModel.set m B o _) as [m1|] eqn:E1; [|discriminate]. cbn [MrbModel.bind] in H.
+  destruct (MrbModel.set m1 B (o + 1) _) as [m2|] eqn:E2; [|discriminate]. cbn [MrbModel.bind] in H.
+  destruct (MrbModel.set m2 B (o + 2) _) as [m3|] eqn:E3; [|discriminate]. cbn [MrbModel.bind] in H.
+  pose proof land255_lt.
+  eapply set_bytes; [exact H | auto |]. eapply set_bytes; [exact E3 | auto |].
+  eapply set_bytes; [exact E2 | auto |]. eapply set_bytes; [exact E1 | auto | exact Hb].
+Qed.
+Lemma place_bytes : forall s0 b p sz s' o, place s0 b p sz = MrbModel.Ok (s', o) -> bytes b -> bytes (buf s').
+Proof.
+  intros s0 b p sz s' o H Hb. unfold place in H.
+  destruct (MrbModel.add_sz b (size s0) p sz) as [b'|] eqn:E; [|discriminate]. cbn [MrbModel.bind] in H.
+  inversion H; subst. cbn [buf]. eapply add_sz_bytes; eauto.
+Qed.
+Lemma alloc_fixed_bytes : forall s sz s' o, alloc_fixed s sz = MrbModel.Ok (s', o) -> bytes (buf s) -> bytes (buf s').
+Proof.
+  intros s sz s' o H Hb. unfold alloc_fixed in H.
+  destruct ((size s <? 8) || (size s - 8 <? sz)); [inversion H; subst; exact Hb|].
+  unfold alloc_body in H. cbv zeta in H.
+  destruct (tail s <=? head s).
+  - destruct (_ <? size s); [eapply place_bytes; eauto|].
+    destruct (_ <? tail s).
+    + destruct (MrbModel.add_sz (buf s) (size s) (head s) 4294967295) as [b'|] eqn:E; [|discriminate].
+      cbn [MrbModel.bind] in H. eapply place_bytes; [exact H|]. eapply add_sz_bytes; eauto.
+    + destruct (head s =? tail s); [eapply place_bytes; eauto | inversion H; subst; exact Hb].
+  - destruct (_ <? tail s); [eapply place_bytes; eauto | inversion H; subst; exact Hb].
+Qed.
+Lemma fill_bytes_bytes : forall d b B p b', fill_bytes b B p d = MrbModel.Ok b' -> bytes d -> bytes b -> bytes b'.
+Proof.
+  induction d as [|x r IH]; intros b B p b' H Hd Hb; cbn [fill_bytes] in H; [inversion H; subst; exact Hb|].
+  inversion Hd; subst.
+  destruct (MrbModel.set b B p x) as [b1|] eqn:E; [|discriminate]. cbn [MrbModel.bind] in H.
+  eapply IH; [exact H | assumption |]. eapply set_bytes; eauto.
+Qed.
+Lemma peek_bytes : forall s s' o, peek s = MrbModel.Ok (s', o) -> bytes (buf s) -> bytes (buf s').
+Proof.
+  intros s s' o H Hb. unfold peek in H. cbv zeta in H.
+  destruct (tail s =? head s); [inversion H; subst; exact Hb|].
+  destruct (MrbModel.get_sz (buf s) (size s) (tail s)) as [z|]; [|discriminate]. cbn [MrbModel.bind] in H.
+  destruct (2147483648 <=? z); [|inversion H; subst; exact Hb].
+  destruct (tail s <? head s); [inversion H; subst; apply bytes_repeat0|].
+  destruct (0 =? head s); [inversion H; subst; exact Hb|].
+  destruct (MrbModel.get_sz (buf s) (size s) 0); [|discriminate]. inversion H; subst. exact Hb.
+Qed.
+Lemma pop_bytes : forall s s' o, pop s = MrbModel.Ok (s', o) -> bytes (buf s) -> bytes (buf s').
+Proof.
+  intros s s' o H Hb. unfold pop in H.
+  destruct (peek s) as [[s1 [[p z]|]]|] eqn:E; cbn [MrbModel.bind] in H; [| |discriminate];
+    inversion H; subst; cbn [buf]; eapply peek_bytes; eauto.
+Qed.
+
+Definition r_step (r : MrbModel.res (mrb * out)) : GenLib.res (jls_mrb_s * list N * out) :=
+  match r with
+  | MrbModel.Ok (s', x) => GenLib.Ok (g_of s', buf s', x)
+  | MrbModel.Fault f => GenLib.Fault (flt f)
+  end.
+Definition r_run (r : MrbModel.res (mrb * list out)) : GenLib.res (jls_mrb_s * list N * list out) :=
+  match r with
+  | MrbModel.Ok (s', xs) => GenLib.Ok (g_of s', buf s', xs)
+  | MrbModel.Fault f => GenLib.Fault (flt f)
+  end.
+
+Lemma gen_deliver_eq : forall (r : MrbModel.res (mrb * option (N * N))),
+  gen_deliver (r_msg r) = r_step (deliver r).
+Proof.
+  intros [[s1 [[p z]|]]|f]; cbn [r_msg gen_deliver deliver GenLib.bind MrbModel.bind r_step]; try reflexivity.
+  rewrite s_of_g_of. destruct (read_msg s1 p z); reflexivity.
+Qed.
+
+Theorem gen_step_eq : forall s o, Conc s ->
+  gen_step (g_of s) (buf s) o = r_step (step alloc_fixed s o).
+Proof.
+  intros s o HC. pose proof HC as (HL & HB & _ & _ & HN & Hb).
+  destruct o as [d| |]; cbn [gen_step step].
+  - rewrite (gen_alloc_eq s _ HL HB).
+    destruct (alloc_fixed s (MrbModel.len d)) as [[s1 [q|]]|f]; cbn [r_alloc optr GenLib.bind MrbModel.bind r_step]; try reflexivity.
+    rewrite s_of_g_of. unfold fill.
+    destruct (fill_bytes (buf s1) (size s1) q d); reflexivity.
+  - rewrite (gen_peek_eq s 0 HL Hb). apply gen_deliver_eq.
+  - rewrite (gen_pop_eq s 0 HC). apply gen_deliver_eq.
+Qed.
+
+Lemma MInv_Conc : forall s, MInv s -> bytes (buf s) -> Conc s.
+Proof.
+  intros s HI Hb. destruct (MInv_conc _ HI) as (HL & HB & HC).
+  destruct HI as (es & HR & HN). destruct HR as (_ & HB2 & HS).
+  unfold Conc. repeat split; auto.
+  - destruct HS as [(H1 & H2 & _) | (m & es1 & es2 & H1 & H2 & H3 & _)]; lia.
+  - destruct HS as [(H1 & H2 & _) | (m & es1 & es2 & H1 & H2 & H3 & _)]; lia.
+Qed.
+
+Lemma step_bytes : forall s o s' x, step alloc_fixed s o = MrbModel.Ok (s', x) ->
+  bytes (buf s) -> op_bytes o -> bytes (buf s').
+Proof.
+  intros s o s' x H Hb Ho. destruct o as [d| |]; cbn [step op_bytes] in *.
+  - destruct (alloc_fixed s (MrbModel.len d)) as [[s1 [q|]]|f] eqn:EA; cbn [MrbModel.bind] in H; [| |discriminate].
+    + pose proof (alloc_fixed_bytes _ _ _ _ EA Hb) as Hb1. unfold fill in H.
+      destruct (fill_bytes (buf s1) (size s1) q d) as [b2|] eqn:EF; cbn [MrbModel.bind] in H; [|discriminate].
+      inversion H; subst. cbn [buf]. eapply fill_bytes_bytes; eauto.
+    + inversion H; subst. eapply alloc_fixed_bytes; eauto.
+  - unfold deliver in H. destruct (peek s) as [[s1 [[p z]|]]|f] eqn:EP; cbn [MrbModel.bind] in H; [| |discriminate].
+    + destruct (read_msg s1 p z); cbn [MrbModel.bind] in H; [|discriminate]. inversion H; subst. eapply peek_bytes; eauto.
+    + inversion H; subst. eapply peek_bytes; eauto.
+  - unfold deliver in H. destruct (pop s) as [[s1 [[p z]|]]|f] eqn:EP; cbn [MrbModel.bind] in H; [| |discriminate].
+    + destruct (read_msg s1 p z); cbn [MrbModel.bind] in H; [|discriminate]. inversion H; subst. eapply pop_bytes; eauto.
+    + inversion H; subst. eapply pop_bytes; eauto.
+Qed.
+
+Theorem gen_run_eq : forall ops s, MInv s -> bytes (buf s) -> Forall op_bytes ops ->
+  gen_run (g_of s) (buf s) ops = r_run (run alloc_fixed s ops).
+Proof.
+  induction ops as [|o r IH]; intros s HI Hb HO; cbn [gen_run run]; [reflexivity|].
+  inversion HO as [|? ? Ho Hr]; subst.
+  rewrite (gen_step_eq s o (MInv_Conc s HI Hb)).
+  assert (HA : op_al_ok alloc_fixed (size s) o) by (destruct o; cbn [op_al_ok]; auto; apply al_ok_fixed).
+  destruct (step_ok alloc_fixed s o HI HA) as (s1 & x & ES & I1 & _ & _).
+  rewrite ES. cbn [r_step GenLib.bind MrbModel.bind fst snd].
+  rewrite (IH s1 I1 (step_bytes _ _ _ _ ES Hb Ho) Hr).
+  destruct (run alloc_fixed s1 r) as [[s2 xs]|f]; reflexivity.
+Qed.
+
+(* every operation sequence from jls_mrb_init, on the generated functions: no fault, the
+   invariant holds, the outputs are those of a FIFO *)
+Theorem gen_reachable_inv : forall (B : N) (ops : list op) (mem0 : list N) (g0 : jls_mrb_s),
+  B <= 2147483648 -> MrbModel.len mem0 = B -> Forall op_bytes ops ->
+  exists g m outs,
+    GenLib.bind (jls_mrb_init mem0 g0 (Ptr 0) B) (fun '(g1, m1) => gen_run g1 m1 ops) = GenLib.Ok (g, m, outs) /\
+    g.(jls_mrb_s_buf) = Ptr 0 /\ g.(jls_mrb_s_buf_size) = B /\ MInv (s_of g m) /\
+    fifo [] ops outs = Some (mrb_abs (s_of g m)).
+Proof.
+  intros B ops mem0 g0 HB HL HO.
+  rewrite (gen_init_eq mem0 g0 B HL). cbn [GenLib.bind].
+  rewrite (gen_run_eq ops (init B) (init_MInv B HB) (bytes_repeat0 _) HO).
+  destruct (reachable_inv_fixed B ops HB) as (s & outs & ER & I & S & F).
+  rewrite ER. cbn [r_run]. exists (g_of s), (buf s), outs. rewrite s_of_g_of. repeat split; auto.
+Qed.
+
+(* hypotheses of the theorems above are satisfiable: the wrapped queue of MrbProofs.ex_state *)
+Lemma gen_ex_state : exists (self : jls_mrb_s) (mem : list N),
+  self.(jls_mrb_s_buf) = Ptr 0 /\ MInv (s_of self mem) /\ bytes mem /\ self.(jls_mrb_s_buf_size) = 48 /\
+  self.(jls_mrb_s_head) = 6 /\ self.(jls_mrb_s_tail) = 14 /\
+  mrb_abs (s_of self mem) = [repeat 2 10; repeat 3 10; repeat 4 2] /\
+  (exists self' mem', jls_mrb_alloc mem self 1 = GenLib.Ok (Ptr 10, self', mem')) /\
+  jls_mrb_alloc mem self 3 = GenLib.Ok (Null, self, mem).
+Proof.
+  destruct (reachable_inv_fixed 48 ex_ops) as (s & outs & ER & I & S & F); [lia|].
+  vm_compute in ER. injection ER as <- <-.
+  eexists (g_of _), _. rewrite s_of_g_of.
+  split; [reflexivity|]. split; [exact I|].
+  split; [cbn [buf]; unfold bytes; repeat (constructor; [reflexivity|]); constructor|].
+  split; [reflexivity|]. split; [reflexivity|]. split; [reflexivity|].
+  split; [vm_compute; reflexivity|].
+  split; [eexists _, _; vm_compute; reflexivity | vm_compute; reflexivity].
+Qed.
